@@ -64,6 +64,11 @@ SEEDS = {
  "C03d": dict(property="C03", needs="a worker that already ran a task reaches its idle timeout while the parent holds processes_management_lock: the stale call_item (no longer deleted) is executed again after the dropped `continue`"),
  "C04d": dict(property="C04", needs="a result larger than the result pipe (multi-chunk write under the lock) while another worker sends a small result, which now skips the write lock: the small message lands inside the big one, the stream cannot be un-serialized, pool broken"),
  "C05d": dict(property="C05", needs="submit + cancel + shutdown issued while the manager thread is between wait() returning and thread_wakeup.clear(): both wake-ups are swallowed, only the cancelled item remains, the manager blocks in wait() for ever (the second add_call_item_to_queue of the F18 repair removed)"),
+ "C01d": dict(property="C01", needs="shutdown(kill_workers=True) with pending futures one of which has a done-callback re-entering the executor (retry by submit, shutdown): the manager now fails the futures while holding the non-reentrant shutdown_lock and deadlocks on itself"),
+ "C06d": dict(property="C06", needs="psutil not importable + a process of the worker tree that ignores or handles SIGTERM: the pgrep path sends SIGTERM instead of SIGKILL (getattr fallback swapped)"),
+ "C07d": dict(property="C07", needs="a worker left on idle timeout, the manager is collecting the sentinels of the live _processes dict (no list copy) when a submit re-spawns the missing worker: dictionary changed size during iteration kills the manager"),
+ "C08d": dict(property="C08", needs="a shrink of a busy reusable executor interrupted inside _wait_job_completion (UserWarning turned into an error, KeyboardInterrupt): _max_workers is already lowered, the next identical request is a no-op and the pool keeps its old size"),
+ "C09d": dict(property="C09", needs="a growing get_reusable_executor racing with a job whose done-callback calls executor.submit (or calling get_reusable_executor from the callback): the work item now stays in pending_work_items while callbacks run, _wait_job_completion never sees it drain"),
  "C20b": dict(property="C20", needs="kill-type lifecycle + worker with descendants one of which vanishes during the kill: kill_process_tree returns early, the worker is neither killed nor joined (child, fd, semaphore accumulate)"),
 }
 DETECTED = json.load(open(os.path.join(ROOT, "seeded", "detected.json"))) if os.path.exists(os.path.join(ROOT, "seeded", "detected.json")) else {}
